@@ -124,6 +124,63 @@ def build_commit(fns):
     return [sc]
 
 
+def build_reopen(fns):
+    """try_parse_cache_file (re-open scan): a cache file is left untracked for its size only when it is larger than the
+    capacity (an item as large as the capacity is accepted by put, so it must be tracked again after a re-open)."""
+    f = mir.find_fn(fns, r"^try_parse_cache_file$|::try_parse_cache_file$")
+    cap = "_2"
+    s = symex.Sym(f, prefix="ro.", models=symex.STD_MODELS, max_visits=1)
+    symex.Sym.CONSTS = symex.const_table([os.path.join(REPO, "chunk_cache/src/disk.rs")])
+    paths = [p for p in s.run("bb0", max_paths=20000) if p.end == "return"]
+    sc = smt.Script("c13_reopen_size_filter")
+    n = 0
+    seen = set()
+    for i, p in enumerate(paths):
+        lens = [v for k_, v in p.store.items() if k_.startswith("len(")]
+        parsed = any(re.search(r"CacheItem::parse$", e[0]) for e in p.events)
+        failed = any(re.search(r"from_residual$|as Into<.*ChunkCacheError>>::into$|ChunkCacheError::general", e[0]) for e in p.events)
+        isfile = any(re.search(r"Metadata::is_file$", e[0]) for e in p.events)
+        if parsed or failed or not isfile or len(lens) != 1:
+            continue
+        # a regular file that was neither parsed nor an error: skipped by the size filter (or not a file: excluded by pc)
+        key = tuple(p.pc)
+        if key in seen:
+            continue
+        seen.add(key)
+        n += 1
+        sc.query("a file skipped without parsing its name is either not a regular file or larger than the capacity [path %d]" % i,
+                 p.pc + ["(bvule %s %s)" % (lens[0].t, s.load(p, ("local", cap), "u64").t)] + [c for c in []])
+    if n == 0:
+        raise LookupError("size filter of try_parse_cache_file not found")
+    sc.query("witness: some file is skipped", ["true"], expect="sat", kind="witness")
+    sc.declare(s.decls)
+    return [sc]
+
+
+def _native(testfn):
+    def run(model, fnd, prop):
+        env = base_env()
+        env["CARGO_TARGET_DIR"] = os.path.join(BUILD, "replay_target")
+        rc, out = sh(["cargo", "test", "--offline", "--test", "c13_accounting_native", "--", testfn], cwd=os.path.join(VERIF, "replay"), env=env, timeout=2400,
+                     log=os.path.join(LOGS, "replay_c13_%s.log" % testfn))
+        path = os.path.join(VERIF, "replay", "tests", "c13_accounting_native.rs")
+        if "test result: FAILED" in out:
+            m = re.search(r"C13 violated: [^\n]*", out)
+            return True, path, m.group(0)[:240] if m else ("native replay fails: " + (re.search(r"panicked at [^\n]*\n[^\n]*", out).group(0).replace("\n", " ")[:200] if re.search(r"panicked at [^\n]*\n[^\n]*", out) else "test failed"))
+        if re.search(r"test result: ok. [1-9]\d* passed", out):
+            return False, path, "native replay %s passes" % testfn
+        return None, path, "native replay inconclusive (rc=%s)" % rc
+    return run
+
+
+def replay_both(model, fnd, prop):
+    """the duplicate-put interleaving first (needs the schedule hook), then the sequential accounting scenarios"""
+    r = replay(model, fnd, prop)
+    if r[0]:
+        return r
+    return _native("totals_match_disk_and_capacity_holds")(model, fnd, prop)
+
+
 def replay(model, fnd, prop):
     env = base_env()
     env["CARGO_TARGET_DIR"] = os.path.join(BUILD, "replay_target_hooks")
@@ -131,9 +188,9 @@ def replay(model, fnd, prop):
     rc, out = sh(["cargo", "test", "--offline", "--test", "c13_duplicate_put_total_bytes"], cwd=os.path.join(VERIF, "replay"), env=env, timeout=2400,
                  log=os.path.join(LOGS, "replay_c13.log"))
     path = os.path.join(VERIF, "replay", "tests", "c13_duplicate_put_total_bytes.rs")
-    if "test result: FAILED" in out and "C13 violated" in out:
+    if "test result: FAILED" in out:
         m = re.search(r"C13 violated: [^\n]*", out)
-        return True, path, m.group(0) if m else "native replay fails"
+        return True, path, m.group(0) if m else ("native replay fails: " + (re.search(r"panicked at [^\n]*\n[^\n]*", out).group(0).replace("\n", " ")[:200] if re.search(r"panicked at [^\n]*\n[^\n]*", out) else "test failed"))
     if "test result: ok. 1 passed" in out:
         return False, path, "native replay passes: byte total equals the tracked items after overlapping identical puts"
     return None, path, "native replay inconclusive (rc=%s)" % rc
@@ -141,7 +198,9 @@ def replay(model, fnd, prop):
 
 SMT = [
     Q("c13_removal_loop", "byte accounting of items removed at commit, inductive loop step", "chunk_cache", build_loop,
-      functions=["chunk_cache::disk::DiskCache::put_impl (removal loop body)"], bounds="one iteration from an arbitrary state", replay=replay),
+      functions=["chunk_cache::disk::DiskCache::put_impl (removal loop body)"], bounds="one iteration from an arbitrary state", replay=replay_both),
     Q("c13_commit", "counter updates of the commit around eviction", "chunk_cache", build_commit,
-      functions=["chunk_cache::disk::DiskCache::put_impl (commit region)"], bounds="one commit from an arbitrary state"),
+      functions=["chunk_cache::disk::DiskCache::put_impl (commit region)"], bounds="one commit from an arbitrary state", replay=_native("totals_match_disk_and_capacity_holds")),
+    Q("c13_reopen_size_filter", "re-open scan tracks every cache file that fits the capacity", "chunk_cache", build_reopen,
+      functions=["chunk_cache::disk::try_parse_cache_file"], bounds="all paths", replay=_native("item_of_exactly_capacity_is_tracked_after_reopen")),
 ]
